@@ -168,8 +168,105 @@ def run(ctx):
               'the segment is reset before bufcache.push() makes it available to a producer, and not touched afterwards',
               'the drained segment is pushed to the cache before it is reset (or reset again afterwards): a producer that takes it from the cache at once has its '
               'first stores wiped by the consumer\'s reset — elements are lost and the sub-queue goes out of step')
+    subqueue_rules(ctx, prog)
+    ctx.floor('R30.6', 1)
+    ctx.floor('R30.7', 1)
+    ctx.floor('R30.8', 1)
     ctx.floor('R30.5', 1)
     ctx.floor('R30.1', 10)
     ctx.floor('R30.2', 11)
     ctx.floor('R30.3', 4)
     ctx.floor('R30.4', 3)
+
+
+def subqueue_rules(ctx, prog, rid=None):
+    """the unbounded single-producer sub-queues the MPMC queue stripes its tickets over (`uMPMC_Ptr_Queue::push` does not look at their result: "cannot fail").
+    rid renames the rule ids when another property (C25 the pipelined writer queue, C28 the logger queue) relies on the same queue."""
+    R = (lambda r: rid) if rid else (lambda r: r)
+    # ---- R30.6 every sub-queue is created growable: the argument bound to the constructor's `fixedsize` parameter is false
+    ini = prog.fn1(Q + 'init')
+    ctx.saw(ini)
+    news = [n for n in ini.all_nodes() if n.k in ('CXXConstructExpr', 'CXXTemporaryObjectExpr') and n.callee is not None and
+            (n.callee.get('qp') or '').startswith('ff::uSWSR_Ptr_Buffer::')]
+    ctx.need(len(news) >= 1, 'uMPMC_Ptr_Queue::init: construction of the uSWSR_Ptr_Buffer sub-queues not found')
+    for i, n in enumerate(news):
+        pn = n.callee.get('pn', [])
+        ctx.need('fixedsize' in pn, 'uSWSR_Ptr_Buffer constructor has no `fixedsize` parameter any more')
+        k = pn.index('fixedsize')
+        v = None
+        if k < len(n.args):
+            v = n.args[k].strip(casts=True).value
+            if v is None:
+                v = q.eval_int(n.args[k], {})
+        ctx.check(v == 0, R('R30.6'), Q + 'init#subqueue-growable@%d' % i, n.loc,
+                  'the sub-queue is constructed with fixedsize = false (it chains a new segment when one is full)',
+                  'the sub-queue is constructed as `%s`: the argument in the `fixedsize` position is %s, so its push returns false on a full segment — and '
+                  'uMPMC_Ptr_Queue::push ignores that result and publishes the slot: from a backlog of (sub-queues x segment size) on, elements are dropped while '
+                  'push reports success, and the matching pop returns true without an element' % (n.text(), 'true' if v else 'not a constant'))
+    # ---- R30.7 uSWSR_Ptr_Buffer::push: on every path that returns true the element has been stored into the CURRENT write segment
+    pf = prog.fns('ff::uSWSR_Ptr_Buffer::push')
+    ctx.need(len(pf) >= 1, 'ff::uSWSR_Ptr_Buffer::push not found')
+    f = pf[0]
+    ctx.saw(f)
+    cfg = f.cfg
+    data = f.param_ids[0]
+    stores = [c for c in f.calls() if c.callee_qp == 'ff::SWSR_Ptr_Buffer::push' and c.obj is not None and
+              any(x.k == 'MemberExpr' and x.decl.get('n') == 'buf_w' for x in c.obj.walk()) and c.args and q.refers_to_decl(c.args[0], data)]
+    ctx.need(len(stores) >= 1, 'uSWSR_Ptr_Buffer::push: buf_w->push(data) not found')
+    sv = {cfg.vertex_of(c): c for c in stores}
+    switch = {cfg.vertex_of(w) for (w, m) in q.member_writes(f, 'ff::uSWSR_Ptr_Buffer::buf_w')}
+    # forward states: True = the element is in the current write segment
+    state = {cfg.entry: {False}}
+    work = [cfg.entry]
+    while work:
+        v = work.pop()
+        for (w, lab) in cfg.succ[v]:
+            for st in list(state[v]):
+                ns = st
+                if v in sv:
+                    ns = True
+                    if lab is not None and isinstance(lab[1], bool):
+                        a, pol = q.polar(cfg.cond_node(lab[0]), lab[1])
+                        if a.strip(casts=True) == sv[v] and not pol:
+                            ns = False          # the failed edge of a tested store
+                if v in switch:
+                    ns = False
+                if ns not in state.setdefault(w, set()):
+                    state[w].add(ns)
+                    work.append(w)
+    bad = None
+    for (v, kind, n) in cfg.exits():
+        if kind != 'return' or not n.children:
+            continue
+        rv = n.children[0].strip(casts=True).value
+        if rv == 0:
+            continue
+        if False in state.get(v, {False}):
+            bad = n
+    ctx.check(bad is None, R('R30.7'), 'ff::uSWSR_Ptr_Buffer::push#stored-before-true', (bad.loc if bad is not None else f.loc),
+              'every path that returns true has stored the element into the write segment current at the return (after any switch to a fresh segment)',
+              'push can return true on a path where the element was not stored into the current write segment (the store failed on the full segment, or the segment '
+              'was switched after it): the element that makes a sub-queue grow is lost, and the consumer later pops one element too few')
+    # ---- R30.8 BufferPool::next_w: every segment handed to the writer is registered in `inuse`, where the reader looks for the next segment
+    nw = prog.fns('ff::BufferPool::next_w')
+    ctx.need(len(nw) >= 1, 'ff::BufferPool::next_w not found')
+    g = nw[0]
+    ctx.saw(g)
+    gc = g.cfg
+    reg = [c for c in g.calls() if c.callee is not None and c.callee.get('n') == 'push' and c.obj is not None and
+           any(x.k == 'MemberExpr' and x.decl.get('n') == 'inuse' for x in c.obj.walk())]
+    ctx.need(len(reg) >= 1, 'BufferPool::next_w: inuse.push not found')
+    regv = {gc.vertex_of(c) for c in reg}
+    bad = None
+    for (v, kind, n) in gc.exits():
+        if kind != 'return' or not n.children:
+            continue
+        val = n.children[0].strip(casts=True)
+        if val.value == 0 or val.k in ('GNUNullExpr', 'CXXNullPtrLiteralExpr'):
+            continue            # allocation failed: nothing handed out
+        if v in gc.reach_from(gc.entry, avoid=regv) or v == gc.entry:
+            bad = n
+    ctx.check(bad is None, R('R30.8'), 'ff::BufferPool::next_w#registered', (bad.loc if bad is not None else g.loc),
+              'every path that returns a segment passes inuse.push(segment)',
+              'a segment is returned to the writer at %s without inuse.push: the reader asks `inuse` for the next segment, never finds this one, and everything '
+              'written into it is lost (pop reports an element it does not deliver)' % (bad.loc if bad is not None else ''))
